@@ -10,3 +10,9 @@ Theorem C07_tev_only : forall c, C07_tev_only_stmt c.        Proof. exact Proofs
 Theorem C07_reject : forall c, C07_reject_stmt c.            Proof. exact Proofs.C07.C07_reject. Qed.
 Theorem C07_disjoint : forall c, C07_disjoint_stmt c.        Proof. exact Proofs.C07.C07_disjoint. Qed.
 Theorem C07_decimal : forall c, C07_decimal_stmt c.          Proof. exact Proofs.C07.C07_decimal. Qed.
+
+(** Capstone: a whole instrument section rendered from abstract N / S / E lines (any white-space pad) is
+    dispatched line by line to exactly the written data; see Spec/Render.v. *)
+From CP Require Import Spec.Render Proofs.Render.
+Theorem numeral_value : numeral_value_stmt.   Proof. exact Proofs.Render.numeral_value. Qed.
+Theorem render_instr : render_instr_stmt.     Proof. exact Proofs.Render.render_instr. Qed.
